@@ -13,8 +13,10 @@ Operations (viewgram ids of the subset follow):
                             → per voxel `<round(exact·2^100)>:<ceil(bound·2^100)>` (model at `Rat`)
   a result that depends on a comparison within 2^-10 (relative) of one of the thresholds of
   `divide_and_truncate` / `accumulate_loglikelihood` is answered `near` (not compared);
+  `range <n> <s>` → `ok ok` / `err err`: is subset number `s` of `n` accepted by the gradient / value functions;
   `pen <n> <c> q…(c) p…(c)` → per element `q − p/n`; `penh|penah <n> <c> q… pin… pout…` → `q − pout/n` (as written in the source);
-  `hist <sameproj> <recompute> <nsub> <g> <g2> r…` → per request `1`/`0` (served correctly?) for the flag machine.
+  `hist <sameproj> <recompute> <nsub> <g> <g2> r…` → per request `1`/`0` (served correctly?) for the flag machine, for the given
+  values of the two indeterminate members and, after ` / `, for the opposite values if that makes a difference.
 The bound is the forward error bound `4·n·2⁻²⁴·Σ|terms|` (n = longest chain of float operations:
 row length(s) + contributions to the voxel + 10), plus `8·2⁻²⁴·|value|` for the value (log). -/
 namespace Driver.C05
@@ -179,6 +181,9 @@ def doGrad (c : Ctx) (addSens : Bool) (ids : List Nat) : String :=
   fmtVec c.nvox (maxRowLen S) 0 1 cs mags
 
 def doSens (c : Ctx) (ids : List Nat) (divide : Rat) : String :=
+  let trivial := (getVgs (if c.hasS then c.svgs else c.vgs) ids).all fun vg => vg.all fun b => b.fac.isEmpty
+  -- the sensitivity geometry, when it is a separate (non-TOF) one, has a single timing position
+  let ids := if c.hasS then ids else sensReads trivial c.zero (fun i => c.tof0.getD i i) ids
   let S := getVgs (if c.hasS then c.svgs else c.vgs) ids
   let cs := sensContribs c.zero S
   let mags := magContribs (fun _ => 0) (fun _ b => sensW c.zero b) S
@@ -270,13 +275,22 @@ def stepLine (c : Ctx) (line : String) : Ctx × String :=
   | "sensdiv" :: n :: ids => (c, doSens c (ids.map N) ((N n : Int) : Rat))
   | "hess" :: c0 :: ids => (c, doHess c (hexD c0) (ids.map N))
   | "ahess" :: c0 :: ids => (c, doAHess c (hexD c0) (ids.map N))
+  | ["range", n, s] =>
+    let a := if subsetAccepted (n.toInt?.getD 0) (s.toInt?.getD 0) then "ok" else "err"
+    (c, a ++ " " ++ a)
   | "pen" :: n :: cnt :: vals => (c, doPen (N n) (N cnt) vals false)
   | "penh" :: n :: cnt :: vals => (c, doPen (N n) (N cnt) vals true)
   | "penah" :: n :: cnt :: vals => (c, doPen (N n) (N cnt) vals true)
   | "hist" :: same :: rec :: nsub :: g :: g2 :: reqs =>
     let rs := reqs.filterMap parseReq
-    let s0 := St.afterSetUp (same == "1") (rec == "1") (N nsub) (g == "1") (g2 == "1")
-    (c, " ".intercalate ((run (same == "1") s0 rs).map fun b => if b then "1" else "0"))
+    let ans (g g2 : Bool) : String :=
+      let s0 := St.afterSetUp (same == "1") (rec == "1") (N nsub) g g2
+      " ".intercalate ((run (same == "1") s0 rs).map fun b => if b then "1" else "0")
+    -- the two members without initialiser are indeterminate: the harness says which byte it put into the storage of the
+    -- object (first answer); the answer for the other value is given too when it differs
+    let a := ans (g == "1") (g2 == "1")
+    let b := ans (g != "1") (g2 != "1")
+    (c, if a == b then a else a ++ " / " ++ b)
   | _ => (c, "bad-op")
 
 partial def loop (h : IO.FS.Stream) (c : Ctx) : IO Unit := do
